@@ -1416,6 +1416,15 @@ let rec copy_submodels k h = function
          | None -> None)
       | None -> None))
 
+(** val linker_name : consts -> obj -> z **)
+
+let linker_name k o =
+  match cell_get (a n_name) o.ocells with
+  | Some v0 -> (match v0 with
+                | VS z0 -> z0
+                | VR _ -> k.k_linker_name)
+  | None -> k.k_linker_name
+
 (** val linker_copy_M : consts -> heap -> loc -> (heap * loc) option **)
 
 let linker_copy_M k h r =
@@ -1435,27 +1444,29 @@ let linker_copy_M k h r =
                    let (h1, cs') = p in
                    let d' = length h1 in
                    let h2 = app h1 ({ okind = KDict; ocells = cs' } :: []) in
-                   let i =
-                     init_M h2 c k (linker_iargs h2 k d' k.k_linker_name)
-                   in
-                   if snd i
-                   then (match dc_entries_pol k.k_single_memo (fst (fst i))
-                                 (filter (fun kv ->
-                                   negb (Z.eqb (fst kv) (a n_submodels)))
-                                   o.ocells) with
-                         | Some p0 ->
-                           let (h3, es) = p0 in
-                           (match nth_error h3 (snd (fst i)) with
-                            | Some o' ->
-                              Some
-                                ((set_obj h3 (snd (fst i)) { okind =
-                                   o'.okind; ocells =
-                                   (keep_keys o.ocells
-                                     (dict_update o'.ocells es)) }),
-                                (snd (fst i)))
-                            | None -> None)
-                         | None -> None)
-                   else None
+                   let nme = linker_name k o in
+                   let i = init_M h2 c k (linker_iargs h2 k d' nme) in
+                   if has_key nme cs'
+                   then None
+                   else if snd i
+                        then (match dc_entries_pol k.k_single_memo
+                                      (fst (fst i))
+                                      (filter (fun kv ->
+                                        negb (Z.eqb (fst kv) (a n_submodels)))
+                                        o.ocells) with
+                              | Some p0 ->
+                                let (h3, es) = p0 in
+                                (match nth_error h3 (snd (fst i)) with
+                                 | Some o' ->
+                                   Some
+                                     ((set_obj h3 (snd (fst i)) { okind =
+                                        o'.okind; ocells =
+                                        (keep_keys o.ocells
+                                          (dict_update o'.ocells es)) }),
+                                     (snd (fst i)))
+                                 | None -> None)
+                              | None -> None)
+                        else None
                  | None -> None)
               | None -> None))
         | None -> None)
@@ -1630,6 +1641,7 @@ type op =
 | OAliasAttr of z * path
 | OSetAttrNested of z * z list list
 | OSetAttrSet of z * z list
+| OSetAttrDict of z * (z * z) list
 | OReplaceSeries of z * z list
 
 (** val list_eqb : ('a1 -> 'a1 -> bool) -> 'a1 list -> 'a1 list -> bool **)
@@ -1798,6 +1810,16 @@ let compile_op k h r = function
        else if Z.eqb (own_scalar h r (a n_strict)) k.k_false
             then add_attribute_acts x s
             else []
+| OSetAttrDict (name, kvs) ->
+  let x = resolve_alias h r name in
+  let s = SFresh (KDict, kvs) in
+  if zmem x (scalars_path h r ((a n_index) :: []))
+  then []
+  else if zmem x (scalars_path h r ((a n_attributes) :: []))
+       then (ASet ([], (a x), s)) :: []
+       else if Z.eqb (own_scalar h r (a n_strict)) k.k_false
+            then add_attribute_acts x s
+            else []
 | OReplaceSeries (name, vs) ->
   let x = resolve_alias h r name in
   if zmem x (scalars_path h r ((a n_index) :: []))
@@ -1857,7 +1879,10 @@ let run_event k s = function
      in
      let h1 = app s.sh ({ okind = KDict; ocells = cells } :: []) in
      let i = init_M h1 c k (linker_iargs h1 k d name) in
-     { sh = (fst (fst i)); sroots = (app s.sroots ((snd (fst i)) :: [])) }
+     if has_key name cells
+     then s
+     else { sh = (fst (fst i)); sroots =
+            (app s.sroots ((snd (fst i)) :: [])) }
    | None -> s)
 | EReindex (i, span, n', positions, fills) ->
   (match nth_error s.sroots i with
